@@ -92,6 +92,8 @@ def run_history(job):
                     if k in a:
                         a[k] = "%s/%s" % (p, a[k])
                 if a["op"] == "load":
+                    if isinstance(a.get("docix"), int) and a["docix"] > len(docs):
+                        break      # an earlier save failed (a rejected step): there is no such document to load
                     a["doc"] = docs[a["docix"] - 1] if isinstance(a.get("docix"), int) else a["doc"]
                 if (a["op"] in ("fit", "predict", "save") and a["s"] not in projs[p]["m"]) or \
                         (a["op"] in ("fit", "predict", "readdf") and a["d"] not in projs[p]["d"]):
